@@ -85,7 +85,9 @@ SlabLen == Cardinality(slab)
 
 \* SessionManager::accept_slab_threshold and the 90 % hysteresis of decr()
 SlabThreshold == 10 + 2 * Max
-Hyst == (Max * 90) \div 100
+HystRaw == (Max * 90) \div 100
+\* floor of 1 (fix f5d9aa4 in /repo): with Max = 1 the 90 % mark is 0 and accepting would never resume
+Hyst == IF "NoHystFloor" \in Deviations \/ HystRaw >= 1 THEN HystRaw ELSE 1
 
 \* effective_max_connections_per_ip
 EffLimit(c) == IF Override[c] >= 0 THEN Override[c] ELSE perIpLimit
